@@ -287,7 +287,7 @@ class Gen:
         if kind == 'increase':
             return [['increase', 0, r.choice([1, 1, 2])], ['log', self.k()]]
         if kind == 'set_res':
-            return [['set_res', 0, r.choice([2, 3, 4, 5])], ['log', self.k()]]
+            return [['set_res', 0, r.choice([0, 0, 1, 2, 3, 4, 5])], ['log', self.k()]]
         if kind == 'level':
             shares = ctx.get('shares', [])
             if shares and r.random() < 0.5:
